@@ -114,6 +114,39 @@ fn table_clauses(rng: &mut Rng, c: &mut Counter) {
     // get / get_mut agree with find
     c.ok("get None => rejects_all", t.get(h(&probe), |x| *x == probe).is_some() == v0.items.values().any(|x| *x == probe));
 
+    // hb_ref / hb_mut (extraction rule R21): dereferencing a full bucket reads that slot; a write through as_mut changes
+    // that slot's value and nothing else (other slots, bucket count, growth_left, and the slot is still found under the
+    // hash it was stored with when the new value hashes alike)
+    {
+        let mut t2 = random_table(rng);
+        let w0 = view(&t2);
+        if let Some((&idx, &val)) = w0.items.iter().nth(rng.below(w0.items.len().max(1) as u64) as usize) {
+            let b = t2.find(h(&val), |x| *x == val).unwrap();
+            let bidx = unsafe { t2.bucket_index(&b) };
+            c.ok("hb_ref: *r == items[idx]", unsafe { *b.as_ref() } == w0.items[&bidx]);
+            let newval = val % 13 + 13 * (1000 + rng.below(5) as u32); // same hash class (h depends on v % 13), not in the table
+            unsafe { *b.as_mut() = newval };
+            let w1 = view(&t2);
+            let mut expect = w0.clone();
+            expect.items.insert(bidx, newval);
+            c.ok("hb_mut: final == tv_written(old, idx, *final(r))", w1 == expect);
+            c.ok("hb_mut: stored hash untouched (still found under it)", t2.find(h(&val), |x| *x == newval).map(|b2| unsafe { t2.bucket_index(&b2) }) == Some(bidx));
+            let _ = idx;
+        }
+    }
+    // a closure lent to find as `&mut eq` is only called (axiom_lent_closure_unchanged): the second lookup with the same
+    // closure value behaves like a lookup with a fresh copy of it
+    {
+        let t2 = random_table(rng);
+        let probe2 = rng.below(200) as u32;
+        let mut calls = 0u32;
+        let mut eq = |x: &u32| { calls += 1; *x == probe2 };
+        let first = t2.find(h(&probe2), &mut eq).map(|b| unsafe { t2.bucket_index(&b) });
+        let second = t2.find(h(&probe2), eq).map(|b| unsafe { t2.bucket_index(&b) });
+        let fresh = t2.find(h(&probe2), |x| *x == probe2).map(|b| unsafe { t2.bucket_index(&b) });
+        c.ok("lent closure: same answers after being lent by &mut", first == second && second == fresh);
+    }
+
     // insert_no_grow
     if v0.growth_left >= 1 {
         let val = 1000 + rng.below(50) as u32;
